@@ -82,6 +82,10 @@ func (ex *Exec) engineAxioms(used map[string]bool) string {
 (assert (= (card ((as const (Array Int Bool)) false)) 0))
 `)
 	}
+	if used["seqshift"] {
+		sb.WriteString(`(assert (forall ((a (Array Int Int)) (o Int) (i Int)) (! (= (select (seqshift a o) i) (select a (+ o i))) :pattern ((select (seqshift a o) i)))))
+`)
+	}
 	if used["subobj"] {
 		sb.WriteString(`(declare-fun subobj.owner (Int) Int)
 (declare-fun subobj.field (Int) Int)
@@ -188,7 +192,7 @@ func (ex *Exec) buildQuery(o *Obligation, sg subgoal, exclude string, values []*
 	sb.WriteString(Preamble)
 	ex.D.EmitFor(&sb, append(all, values...))
 	eng := map[string]bool{}
-	for _, n := range []string{"sconcat", "chr", "card", "subobj", "sid"} {
+	for _, n := range []string{"sconcat", "chr", "card", "subobj", "sid", "seqshift"} {
 		if used[n] {
 			eng[n] = true
 		}
